@@ -951,7 +951,11 @@ def ruleDurationInterval(
 ) -> Optional[Interval]:
     # 3 days 15-18 Nov
     delta = interval.t_to.dt - interval.t_from.dt
-    dur_delta = _duration_to_relativedelta(dur)
+    try:
+        dur_delta = _duration_to_relativedelta(dur)
+    except (OverflowError, ValueError):
+        # a length no date range can have
+        return None
     if delta.days == dur_delta.days:
         return interval
     return None
